@@ -68,6 +68,7 @@ pub struct Stats {
     pub clear_cases: u64,
     pub retention_cases: u64,
     pub retention_deleting: u64,
+    pub large_member_histories: u64,
     pub viol: SigBag,
 }
 
@@ -97,8 +98,47 @@ struct Taken {
 }
 
 pub fn run_history(hist: &[BOp], scratch: &Scratch, st: &mut Stats) {
+    run_history_cfg(&bcfg(), hist, scratch, st)
+}
+
+/// Histories whose files exceed the backup archive's 64 KiB streaming chunk several times over
+/// (dimension 64, hundreds of documents: WAL segments and snapshots of 100-250 KiB), with and
+/// without rotation: a full backup, more writes and deletes, an incremental, a snapshot (WAL
+/// compaction), further writes, a second incremental and a sibling incremental.
+pub fn large_member_histories() -> Vec<(BackendCfg, Vec<BOp>)> {
+    let dim = 64usize;
+    let vecg = |i: usize, salt: usize| -> Vec<f32> { (0..dim).map(|j| (((i * 7919 + j * 104_729 + i * j * 31 + salt * 613) % 2001) as f32 / 1000.0 - 1.0) * 1.5).collect() };
+    let ins = |i: usize, salt: usize| BOp::W(Op::Ins { id: i as u64 + 1, v: vecg(i, salt), m: meta1("i", &format!("{i}-{salt}")) });
+    let mut h: Vec<BOp> = Vec::new();
+    for i in 0..400 {
+        h.push(ins(i, 0));
+    }
+    h.push(BOp::Full);
+    for i in 0..120 {
+        h.push(ins(i * 3, 1));
+    }
+    for i in 0..40 {
+        h.push(BOp::W(Op::Del { id: (i * 7 + 2) as u64 }));
+    }
+    h.push(BOp::Incr);
+    h.push(BOp::Snap);
+    for i in 400..520 {
+        h.push(ins(i, 2));
+    }
+    h.push(BOp::Incr);
+    h.push(BOp::IncrFromFull);
+    h.push(BOp::Restart);
+    for i in 0..30 {
+        h.push(ins(i, 4));
+    }
+    h.push(BOp::Full);
+    let mk = |rot: u64| BackendCfg { metric: "euclidean".into(), dim, capacity: 1024, snap_interval: 0, rotation: rot, fsync: "never".into() };
+    vec![(mk(1 << 30), h.clone()), (mk(100_000), h)]
+}
+
+pub fn run_history_cfg(cfg: &BackendCfg, hist: &[BOp], scratch: &Scratch, st: &mut Stats) {
     st.histories += 1;
-    let cfg = bcfg();
+    let cfg = cfg.clone();
     let data = scratch.path.join("data");
     let bdir = scratch.path.join("backups");
     let _ = std::fs::remove_dir_all(&data);
@@ -179,7 +219,8 @@ pub fn run_history(hist: &[BOp], scratch: &Scratch, st: &mut Stats) {
         format!("{:?}|{}", model.docs, taken.len()).hash(&mut h);
         st.states.insert(h.finish());
     }
-    let ctx = |detail: String| json!({"engine":"seqmc","check":"C12","part":1,"history":hist,"detail":detail});
+    let large = hist.len() > 100;
+    let ctx = |detail: String| if large { json!({"engine":"seqmc","check":"C12","part":1,"large_member_cfg":cfg,"detail":detail}) } else { json!({"engine":"seqmc","check":"C12","part":1,"history":hist,"detail":detail}) };
     // restore every backup by id, and by point in time at its timestamp
     for (i, t) in taken.iter().enumerate() {
         for pitr in [false, true] {
@@ -521,13 +562,19 @@ pub fn worker(wi: usize, wn: usize, tier: &str) {
             }
         }
     }
+    for (li, (cfg, hist)) in large_member_histories().into_iter().enumerate() {
+        if (li + 1) % wn == wi {
+            run_history_cfg(&cfg, &hist, &scratch, &mut st);
+            st.large_member_histories += 1;
+        }
+    }
     part2(tier, wi, wn, &scratch, &mut st);
     if wi == 0 {
         part3(&scratch, &mut st);
     }
     part4(tier, wi, wn, &scratch, &mut st);
     sc::clear_root();
-    vcore::par::worker_emit(&json!({"histories":st.histories,"backups":st.backups,"restores":st.restores,"pitr":st.pitr,"incr_comp":st.incr_with_compaction_between,
+    vcore::par::worker_emit(&json!({"large":st.large_member_histories,"histories":st.histories,"backups":st.backups,"restores":st.restores,"pitr":st.pitr,"incr_comp":st.incr_with_compaction_between,
         "states":st.states.iter().collect::<Vec<_>>(),"tamper":st.tamper_cases,"tamper_rejected":st.tamper_rejected,"tamper_accepted":st.tamper_accepted,
         "clear":st.clear_cases,"retention":st.retention_cases,"retention_deleting":st.retention_deleting,"violations":st.viol.to_json()}));
 }
@@ -541,12 +588,22 @@ pub fn run(tier: &str, replay: Option<&str>) -> i32 {
         let v: Value = serde_json::from_str(&std::fs::read_to_string(p).expect("read")).expect("json");
         let c = &v["case"];
         if c["part"] == 1 {
-            let hist: Vec<BOp> = serde_json::from_value(c["history"].clone()).unwrap();
             let scratch = Scratch::new("c12replay");
+            sc::ctl(sc::CMD_CLOCK_MODE, 1, 0);
             sc::set_root(&scratch.path.to_string_lossy());
             sc::ctl(sc::CMD_MTIME_MODE, 1, 0);
             let mut st = Stats::default();
-            run_history(&hist, &scratch, &mut st);
+            if !c["large_member_cfg"].is_null() {
+                let want: BackendCfg = serde_json::from_value(c["large_member_cfg"].clone()).unwrap();
+                for (cfg, hist) in large_member_histories() {
+                    if cfg.rotation == want.rotation {
+                        run_history_cfg(&cfg, &hist, &scratch, &mut st);
+                    }
+                }
+            } else {
+                let hist: Vec<BOp> = serde_json::from_value(c["history"].clone()).unwrap();
+                run_history(&hist, &scratch, &mut st);
+            }
             sc::clear_root();
             if let Some((s, r)) = st.viol.any_first() {
                 println!("replay: reproduced {s}: {}", r["detail"]);
@@ -569,7 +626,7 @@ pub fn run(tier: &str, replay: Option<&str>) -> i32 {
     let mut tot: BTreeMap<&str, u64> = BTreeMap::new();
     let mut states: BTreeSet<u64> = BTreeSet::new();
     for r in &res {
-        for k in ["histories", "backups", "restores", "pitr", "incr_comp", "tamper", "tamper_rejected", "tamper_accepted", "clear", "retention", "retention_deleting"] {
+        for k in ["histories", "backups", "restores", "pitr", "incr_comp", "tamper", "tamper_rejected", "tamper_accepted", "clear", "retention", "retention_deleting", "large"] {
             *tot.entry(k).or_insert(0) += r[k].as_u64().unwrap_or(0);
         }
         for s in r["states"].as_array().unwrap() {
@@ -586,6 +643,7 @@ pub fn run(tier: &str, replay: Option<&str>) -> i32 {
     ev.set("rule", format!("(1) all histories of length {depth} over {{insert 1, insert 2, overwrite 1, delete 1, SNAP, RESTART, FULL backup, INCREMENTAL backup (parent = latest), INCREMENTAL backup (parent = last FULL: siblings)}} that contain a full backup, rotation threshold 1 byte so snapshots compact segments between backups, logical clock +2 s per step with virtual mtimes; every backup taken is restored by id AND by point-in-time (target = its timestamp) into an empty directory, recovered, and must equal the reference map as of that backup; (2) one full+incremental chain: every byte of every archive and metadata file x {{xor 0x01, 0xFF (thorough: +xor 0x80, 0x00)}} and truncations, restored over a target holding sentinel files with clearing allowed: rejected => target byte-identical, accepted => collection as expected; (3) target {{empty, non-empty}} x allow_clear x BACKUP_ALLOW_CLEAR {{unset,true,TRUE,1,false,yes}} x {{by id, point-in-time}}: cleared only with confirmation; (4) every timeline of 2..{} backups with ages on {{1/2 h, 2 h, 26 h, 8 d, 40 d}}, every parent assignment, 32 policies, fixed clock: the retained set is closed under parent_id and nothing younger than min_age is deleted. non-trivial = incrementals taken after an intervening snapshot + rejected tamperings + prunes that delete something", if tier == "thorough" { 4 } else { 3 }));
     ev.set("samples", json!([{"history": ["I(1)", "FULL", "I(2)", "SNAP", "INCR"]}, {"tamper": "archive byte 17 -> 0xff"}, {"retention": {"ages_s": [93600, 7200], "parents": [null, 0]}}]));
     ev.set("exhaustive", true);
+    ev.set("large_member_histories", json!({"histories": tot["large"], "rule": "dimension 64, 400-550 documents, rotation {none, 100 kB}: WAL segments and snapshots of 100-250 KiB (several 64 KiB archive streaming chunks); full backup, overwrites + deletes, incremental, snapshot (compaction), writes, incremental, sibling incremental, restart, writes, second full backup; every backup restored by id and by point in time and compared with the reference map"}));
     ev.set("backups_taken", tot["backups"]);
     ev.set("restores_by_id", tot["restores"]);
     ev.set("restores_point_in_time", tot["pitr"]);
